@@ -20,11 +20,13 @@ EXTENDS NASimObs, SequencesExt
 
 CONSTANT PlanMode          \* "greedy" | "useful"
 
-VARIABLES cur, score, last, ncomp
+VARIABLES cur, score, last, ncomp, hist
 
-vars == <<cur, score, last, ncomp>>
+vars == <<cur, score, last, ncomp, hist>>
+\* the action history is a label: hidden from the fingerprint, the first history found for a state is kept
+view == <<cur, score, ncomp>>
 
-Init == cur = InitSt /\ score = 0 /\ last = 0 /\ ncomp = 0
+Init == cur = InitSt /\ score = 0 /\ last = 0 /\ ncomp = 0 /\ hist = <<>>
 
 Changes(st, k) == WouldChange(st, FlatAt(k))
 
@@ -75,6 +77,7 @@ Do(k) ==
     /\ cur' = x.st
     /\ score' = score + x.value - a.cost
     /\ last' = k
+    /\ hist' = IF PlanMode = "greedy" THEN hist ELSE Append(hist, k)
     /\ ncomp' = Cardinality({h \in Hosts : x.st[h].comp})
 
 
@@ -92,6 +95,9 @@ Spec == Init /\ [][Next]_vars
 
 \* C16: violated exactly when the goal is reachable; the counterexample is a plan
 NoPlan == ~Goal(cur)
+
+\* every goal state of the useful-only exploration with its total, number of compromised hosts and one history
+GoalReport == Goal(cur) => PrintT(<<"GOAL", ncomp, score, hist>>)
 
 \* C20 (scenario in the cost / value domain): AdvUB, AdvHops are what the implementation advertises
 ScoreWithinBound == Goal(cur) => score <= AdvUB
